@@ -138,6 +138,7 @@ func c29Numeric(v string) bool {
 
 func (m *c29Model) put(name, v string, add bool) {
 	n := c29Canon(name, m.normOff)
+	v = c29Neutralise(v)
 	switch m.class(n) {
 	case c29ClsSingle:
 		if n == "Content-Length" && !c29Numeric(v) {
@@ -334,11 +335,40 @@ func (o c29Op) String() string {
 var c29Names = []string{"X-A", "x-a", "X-B", "Content-Type", "Content-Length", "Host", "User-Agent", "Connection", "Server", "Cookie", "Set-Cookie", "Trailer"}
 var c29Values = []string{"1", "2", "close"}
 
+// values with embedded line breaks (CR and LF in both orders), used with Set/Add on the always-ordinary names
+var c29BreakValues = []string{"1\r\n2", "1\n2\r\n", "1\nX-B: 9\r\n", "1\r2\n"}
+var c29BreakNames = []string{"X-A", "x-a", "X-B"}
+
+// c29Neutralise is the documented treatment of line breaks in a value handed to a setter: every CR and every LF
+// becomes a space (header.go: "removeNewLines will replace `\r` and `\n` with an empty space").
+func c29Neutralise(v string) string {
+	if !strings.ContainsAny(v, "\r\n") {
+		return v
+	}
+	b := []byte(v)
+	for i, c := range b {
+		if c == '\r' || c == '\n' {
+			b[i] = ' '
+		}
+	}
+	return string(b)
+}
+
+// c29TrimOWS removes optional whitespace around a field value (not part of the value on the wire, RFC 9110 5.5).
+func c29TrimOWS(v string) string { return strings.Trim(v, " \t") }
+
 func c29Alphabet() []c29Op {
 	var ops []c29Op
 	for _, k := range []string{"Set", "Add"} {
 		for _, n := range c29Names {
 			for _, v := range c29Values {
+				ops = append(ops, c29Op{k, n, v})
+			}
+		}
+	}
+	for _, k := range []string{"Set", "Add"} {
+		for _, n := range c29BreakNames {
+			for _, v := range c29BreakValues {
 				ops = append(ops, c29Op{k, n, v})
 			}
 		}
@@ -565,12 +595,33 @@ func (c *c29Ctx) apply(h *c29Real, m *c29Model, o c29Op, path []c29Op) (bool, bo
 			return true, true
 		}
 		after := c29NonFraming(n.all(nil))
+		for i := range before { // surrounding whitespace is not part of a field value on the wire
+			before[i].V = c29TrimOWS(before[i].V)
+		}
+		for i := range after {
+			after[i].V = c29TrimOWS(after[i].V)
+		}
+		for _, f := range after {
+			known := false
+			for _, g := range before {
+				if g.K == f.K {
+					known = true
+				}
+			}
+			if !known {
+				c.r.Violation("write-read:additional-field-name", fmt.Sprintf("%s: reading back yields the field name %q that was not there before writing: before %q, after %q (wire %q)", c.descr(path), f.K, before, after, wire), c.mkCase(path))
+				return true, true
+			}
+		}
 		if s := c29ShapeKV(after, before); s != "" {
 			c.r.Violation("write-read:fields-"+s, fmt.Sprintf("%s: non-framing fields before writing %v, after reading back %v (wire %q)", c.descr(path), before, after, wire), c.mkCase(path))
 			return true, true
 		}
 		*h = *n
 		m.origin = 2
+		for i := range m.fields {
+			m.fields[i].V = c29TrimOWS(m.fields[i].V)
+		}
 		// framing fields (and a materialised default Content-Type) are taken over from the implementation
 		m.conn, m.connEarlier = "", nil
 		for _, f := range h.all(nil) {
@@ -692,6 +743,9 @@ func c29SplitJoined(cls int, vals []string) []string {
 // the order PeekAll, Peek, All, PeekKeys). Returns true when a violation was recorded.
 func (c *c29Ctx) check(h *c29Real, m *c29Model, path []c29Op) bool {
 	report := func(observer, name, shape, what string) bool {
+		if strings.ContainsAny(strings.Join(c.gotBuf, ""), "\r\n") {
+			shape = "line-break-kept" // an observed value still holds a raw CR or LF
+		}
 		c.r.Violation(c.sigFor(m, path, observer, name, shape), c.descr(path)+": "+what, c.mkCase(path))
 		return true
 	}
@@ -853,11 +907,11 @@ func TestVerif_C29(t *testing.T) {
 	preDepth := vrt.Pick(r, 2, 4) // depth explored after the preamble
 	// second start state: a header that already holds a multi-valued name behind another name, and three cookies
 	preamble := []c29Op{{"Add", "X-B", "1"}, {"Add", "X-A", "1"}, {"Add", "X-A", "2"}, {"Add", "X-A", "close"}, {"SetCookie", "a", "1"}, {"SetCookie", "b", "1"}, {"SetCookie", "c", "1"}, {"Set", "Host", "h"}}
-	r.Rule(fmt.Sprintf("explicit-state BFS over RequestHeader and ResponseHeader, header-name normalisation on and off: all sequences of at most %d operations over {Set,Add}x%q x%q, Del x names, "+
+	r.Rule(fmt.Sprintf("explicit-state BFS over RequestHeader and ResponseHeader, header-name normalisation on and off: all sequences of at most %d operations over {Set,Add}x%q x%q, {Set,Add}x%q x line-break values %q (model: every CR/LF becomes a space), Del x names, "+
 		"SetCookie{a,b}x{1,2}, DelCookie{a,b}, CopyTo (continue on the copy), write->read (continue on the header read back) (%d ops) from an empty header, and of at most %d operations after the preamble %v; "+
 		"states de-duplicated on the reference model's canonical state; every transition replays the parent's path on a fresh header and checks PeekAll, Peek, All, PeekKeys against the model "+
 		"(ordered multimap per canonical name; special names single-valued; cookies accumulate) and, for write->read, the non-framing field sequence before/after; "+
-		"non-trivial: states with two or more values under one name or two or more cookies", depth, c29Names, c29Values, len(ops), preDepth, preamble))
+		"non-trivial: states with two or more values under one name or two or more cookies", depth, c29Names, c29Values, c29BreakNames, c29BreakValues, len(ops), preDepth, preamble))
 	r.Assume("Set replaces the first value of an ordinary name and leaves further values of that name in place (literal reading of the statement; it matches the implementation)",
 		"framing fields (Content-Length, Transfer-Encoding, Connection), Date and default Content-Type values are outside the write->read comparison; after a read-back the model takes the framing fields over from the implementation",
 		"the order of fields of different names in All() is not compared with the model, only the order of the values under each name")
